@@ -47,9 +47,10 @@ Section RT.
     - intros [[k [x [Hk Hx]]]|[H|[]]].
       + inversion Hx; subst. exact Hk.
       + inversion H; subst. reflexivity.
-    - destruct r as [|i]; simpl; intro H.
+    - destruct r as [|i|a]; simpl; intro H.
       + right. left. congruence.
       + left. exists i, o. auto.
+      + discriminate.
   Qed.
 
   Lemma valid_deref r : valid g r -> exists o, deref g r = Some o.
